@@ -104,7 +104,7 @@ def gen_obligations(suite, c, bits=None):
     # ---- postconditions on every normal exit
     rt = c.types.get("return")
     for s, val, ln in outs:
-        if rt and parse_type(rt).kind != "opaque":
+        if rt and parse_type(rt).kind != "opaque" and not rt.startswith("tuple"):
             f = parse_type(rt)
             try:
                 val = ex.coerce(val, f, "return value") if (val.kind == "none" or val.kind != f.kind) else val
